@@ -856,8 +856,11 @@ class PtychographyBase(RNGMixin, AutoSerialize):
     def _store_current_iter_snapshot(
         self,
     ) -> None:
-        probe = self.probe
-        obj = self.obj
+        # on the CPU `self.probe` / `self.obj` can be NumPy views of the live parameter tensors
+        # (whenever the hard constraints return their input): a snapshot has to own its data,
+        # otherwise every stored snapshot keeps showing the current iterate
+        probe = np.array(self.probe, copy=True)
+        obj = np.array(self.obj, copy=True)
         snp = Snapshot(iteration=self.num_iters, obj=obj, probe=probe)
         self._snapshots.append(snp)
 
